@@ -357,7 +357,7 @@ Print Assumptions C16_nonpositive_staking_rejected_by_matcher.
     from that rinput.  [o] : MainRun.options, [secs] : the tokenised INI file, [ts] : the timestamp oracle, [v] : renv,
     [envp] : the long-term period rp2_generic reads from its environment. *)
 From RP2V Require Import Model.Parser Model.Render Model.TableOrderSpec Model.ConfigModel Model.EndToEnd
-  Proofs.FaultsCtor Proofs.EndToEndFront Proofs.EndToEnd Proofs.EndToEndExamples.
+  Model.MatchWf Proofs.FaultsCtor Proofs.EndToEndFront Proofs.EndToEnd Proofs.EndToEndAnyRows Proofs.EndToEndExamples.
 
 (** REJECTION.  Each cause is its own disjunct: the configuration is invalid; an option check fails; the sheet of some processed
     asset (after any accepted ones) is missing or rejected by the parser; the front end accepts everything and for some asset
@@ -445,7 +445,8 @@ Proof. exact sheet_holders_ok. Qed.
     -l); -m and [accounting_methods] not both given, schedule entries name existing methods, distinct schedule years; -a (if
     given) a configured asset; every processed asset's sheet the rendering of well-formed tables ([rendered_workbook]) whose typed
     rows construct with at least one acquisition; [sheet_rows_ok] for every sheet -- what REMAINS a hypothesis about the rows:
-    no acquisition with a crypto fee (gap, see [sheet_rows_ok]), STAKING amounts positive, one instant one local year (F13), the
+    no acquisition with a crypto fee (covered by [C16_end_to_end_success_any_rows] below), STAKING amounts positive, one instant
+    one local year (F13), the
     schedule covers every event year, the lots never run out, and -n or no overdraft up to the to-date; at most 100000
     configured holders; [reports_ok_hyps] on the resulting rinput.
     Then: exit 0; exactly the configured reports of the country in discovery order, each produced by its generator model on the
@@ -479,6 +480,57 @@ Theorem C16_end_to_end_success : forall c o secs ts workbook v envp s sheet trai
                           fractions_of gen_always_repush (rp_sched i) (ra_txs ra) = Ok (ra_fracs ra))
             (rp_assets i) (sort_leb by_name ps).
 Proof. exact E2E_success. Qed.
+
+(** SUCCESS FOR ANY ROWS THE PARSER ACCEPTS (crypto-fee acquisitions included; Proofs/EndToEndAnyRows.v).  No [hist]: the
+    well-formedness of the matcher input ([MatchWf.wf]) is proved directly for the transactions [expected] gives for a well-formed
+    sheet -- sheet rows numbered in order, the artificial ids of fee disposals in [counter', counter), below every sheet row and
+    pairwise distinct, every amount positive (acquisitions: unless STAKING), holder indices inside the configured list -- and
+    [compute] is total on a well-formed matcher input up to the balance guard.  [ps] = [expected_all] of the sheets (the artificial-id
+    counter threaded through the assets); [parsed_rows_ok] = what remains a hypothesis about each expected sheet: STAKING amounts
+    positive, one instant one local year (F13), the schedule covers every event year, the lots never run out, -n or no overdraft. *)
+Theorem C16_end_to_end_success_any_rows : forall c o secs ts workbook v envp s sheet trailing ps,
+  validate_config secs = Ok s ->
+  supported c o ->
+  (o_method o = None \/ cs_methods s = []) ->
+  Forall (fun e => str_in (snd e) method_plugins = true) (cs_methods s) ->
+  NoDup (map fst (cs_methods s)) ->
+  (forall a, o_asset o = Some a -> In a (cs_assets s)) ->
+  Z.of_nat (length (cs_holders s)) <= 100000 ->
+  rendered_workbook (pcfg_of s ts) workbook sheet trailing (run_assets o s) ->
+  expected_all (pcfg_of s ts) sheet (run_assets o s) 0 = Ok ps -> (forall a p, In (a, p) ps -> pa_ins p <> []) ->
+  (forall sched a p, e2e_sched c o s = Some sched -> In (a, p) ps -> parsed_rows_ok sched (o_neg o) (o_to o) p) ->
+  (forall i, e2e_input c o envp s ps = Some i -> reports_ok_hyps v i) ->
+  exists i l,
+    e2e_input c o envp s ps = Some i /\
+    rp2_model c o secs ts workbook v envp = (0, l) /\
+    map fst l = discovery c /\
+    (forall g sheets, In (g, sheets) l -> run_gen v i g = inl sheets /\ within_capacity g sheets) /\
+    MainRun.run c o (l6_config s) (inp_of_rinput i) = (0, map (report_file c o s) l) /\
+    Forall2 (fun ra ap => ra_name ra = fst ap /\ txs_of_parsed (snd ap) = Ok (ra_txs ra) /\
+                          fractions_of gen_always_repush (rp_sched i) (ra_txs ra) = Ok (ra_fracs ra))
+            (rp_assets i) (sort_leb by_name ps).
+Proof. exact E2E_success_any_rows. Qed.
+
+(** its two ingredients: the matcher input of an expected sheet is well formed ([sheet_sets_ok p t]: InputData accepted the sets,
+    lots sorted / distinct / not empty, every amount positive, the taxable events defined -- all derived from [wf_blocks]) ... *)
+Theorem C16_expected_sheet_sets : forall cfg, Z.of_nat (length (pc_holders cfg)) <= 100000 ->
+  forall asset counter blocks p,
+  counter <= 0 -> wf_blocks cfg asset 1 blocks -> expected cfg counter blocks = Ok p -> pa_ins p <> [] ->
+  pa_counter p <= counter /\ exists t, sheet_sets_ok p t.
+Proof. exact expected_sheet_sets. Qed.
+Theorem C16_expected_sheet_wf : forall p t sched evs,
+  sheet_sets_ok p t -> taxable_events t = Ok evs ->
+  (forall x, In x (pa_ins p) -> i_type x = STAKING -> 0 < i_crypto_in x) ->
+  hist_same_instant_same_year evs -> hist_sched_covers sched evs -> NoDup (map fst sched) ->
+  wf (t_ins t) sched (map event_of evs).
+Proof. exact sheet_sets_wf. Qed.
+(** ... and ComputedData exists for every well-formed matcher input the matcher succeeded on (no [hist] needed) *)
+Theorem C16_computed_data_exists_wf : forall sched t evs fs,
+  taxable_events t = Ok evs -> wf (t_ins t) sched (map event_of evs) -> fractions_of gen_always_repush sched t = Ok fs ->
+  forall period from_day to_day allow exs hos,
+  allow = true \/ (holders_ok t /\ never_overdrawn to_day t) ->
+  exists cd, compute period from_day to_day allow exs hos t fs = Ok cd.
+Proof. exact compute_total_wf. Qed.
 
 (** the file-name view of the run is [ConfigModel.front_end] itself with the named reports of the back end *)
 Theorem C16_end_to_end_is_front_end : forall c o secs ts workbook v envp,
@@ -525,7 +577,21 @@ Theorem C16_end_to_end_crypto_fee_nonvacuous :
             (forall g sheets, In (g, sheets) l -> run_gen (wv 0) fee_i g = inl sheets /\ within_capacity g sheets).
 Proof. exact e2e_crypto_fee_nonvacuous. Qed.
 
+(** ... and that workbook meets every hypothesis of [C16_end_to_end_success_any_rows]; the fee disposal -1 and the sale are both
+    matched to the lot of sheet row 8 *)
+Theorem C16_end_to_end_any_rows_nonvacuous :
+  (forall a p, In (a, p) fee_ps -> parsed_rows_ok ok_sched (o_neg opts0) (o_to opts0) p) /\
+  map (fun f => (f_ev f, f_lot f)) fee_fs_AAA = [(-1, Some 8); (4, Some 8)] /\
+  exists i l, e2e_input US opts0 0 ok_s fee_ps = Some i /\
+              rp2_model US opts0 ok_secs ok_ts fee_workbook (wv 0) 0 = (0, l) /\ map fst l = discovery US.
+Proof. exact e2e_any_rows_nonvacuous. Qed.
+
 Print Assumptions C16_end_to_end_rejection.
+Print Assumptions C16_end_to_end_success_any_rows.
+Print Assumptions C16_expected_sheet_sets.
+Print Assumptions C16_expected_sheet_wf.
+Print Assumptions C16_computed_data_exists_wf.
+Print Assumptions C16_end_to_end_any_rows_nonvacuous.
 Print Assumptions C16_end_to_end_crypto_fee_nonvacuous.
 Print Assumptions C16_end_to_end_compute_tax_fails.
 Print Assumptions C16_end_to_end_overdrawn_any_sheet.
